@@ -24,7 +24,6 @@ sign()/verify() with the same hash/XOF object gives the same outcome and leaves 
 import multiprocessing
 import time
 
-from ..common import Acc, chunks
 from ..ref import rsa as R
 from ..ref import dsa as RD
 from ..ref import ec as REC
@@ -67,7 +66,7 @@ def rsa_plan(q):
     plan = []
     if q:
         keys = ["rsa1024e65537", "rsa1024e3", "rsa1025e65537", "rsa1031e3", "rsa1032e65537"]
-        emflip_keys = set(keys)
+        emflip_keys = {"rsa1024e65537", "rsa1025e65537", "rsa1031e3"}
     else:
         keys = [RSA.keyname(b, e) for b, e in RSA.FIXT]
         emflip_keys = set(keys)
@@ -88,7 +87,8 @@ def rsa_plan(q):
             else:
                 plan.append((0.05 * u, ("v15", kn, hn, ["asc33"], [], other[kn])))
         # PSS
-        plan.append((5.0 * u, ("pss", kn, ("sha256", None, None), ["asc33"], full, other[kn])))
+        plan.append((5.0 * u, ("pss", kn, ("sha256", None, None), ["asc33"],
+                     full if kn in emflip_keys else ["sig", "flips", "forge"], other[kn])))
         plan.append((0.1 * u, ("pss", kn, ("sha256", None, None), ["empty", "seeded150"], [], other[kn])))
         for cfg in (("sha256", None, 0), ("sha256", None, 1), ("sha256", None, "max"), ("sha256", None, "max+1"),
                     ("sha256", None, 32), ("sha256", "sha1", None), ("sha1", "sha256", 0), ("sha1", None, None),
@@ -214,7 +214,8 @@ def run(ctx):
     for pfx in ("rsa", "dss", "ed"):
         ctx.require(n.get(pfx + "_accept", 0) > 20, "%s: fewer than 20 accepted verifications" % pfx)
         ctx.require(n.get(pfx + "_reject", 0) > 1000, "%s: fewer than 1000 rejected candidates" % pfx)
-    ctx.require(n.get("signatures", 0) > 300, "fewer than 300 signatures were produced and compared with the reference")
+    ctx.require(n.get("signatures_ok", 0) > 300, "fewer than 300 signatures were produced and compared with the reference")
+    ctx.require(n.get("signatures_ok", 0) > 0.9 * n.get("signatures", 0), "sign() refused more than 10% of the configurations")
     schemes = {c[0] for c in cl}
     for s in ("v15", "v15-forge", "pss", "pss-forge", "dsa", "ecdsa", "eddsa", "eddsa-crafted"):
         ctx.require(s in schemes, "no case of scheme/part %s was executed" % s)
@@ -257,7 +258,8 @@ def run(ctx):
         "evaluations": n.get("evaluations", 0),
         "distinct_nontrivial": len(cl),
         "exhaustive": not a.caps,
-        "signatures_compared_with_reference": n.get("signatures", 0),
+        "signatures_compared_with_reference": n.get("signatures_ok", 0),
+        "sign_calls": n.get("signatures", 0),
         "distinct_sign_configurations": len(a.distinct.get("sign_cfgs", ())),
         "fips_entropy_tapes": n.get("tapes", 0),
         "eddsa_crafted_small_order_cases": n.get("crafted_cases", 0),
